@@ -140,6 +140,14 @@ def gen_mkl(rng):
     return "M %d %d %d | %s | %s %s %s | %s | %s | %s" % (d1, d3, nt, " ".join(map(str, tab)), rng.choice(["1/4", "1/2", "1"]), lw[0], lw[1], pts(n1), pts(n2),
                                                          " ".join(map(str, composition(rng, n1))))
 
+def gen_task(rng):
+    """GaussianTaskKernel / MultiTaskKernel: multi-task data (input, task index; some tasks may have no example), input kernel
+    without NormalizedKernel / ModelKernel, gamma, number of setParameterVector(parameterVector()) round trips"""
+    dim = rng.randint(1, 3); nt = rng.randint(1, 4); tree = gen_tree(rng, dim, rng.choice([0, 0, 1, 2]), False, True, True)
+    n = rng.randint(1, 6); pts = []
+    for _ in range(n): pts += [gnum(rng) for _ in range(dim)] + [str(rng.randrange(nt))]
+    return "T %d %d | %s | %s | %d %s | %d" % (dim, nt, " ".join(tree), rng.choice(["1/4", "1/2", "1", "2", "1/8"]), n, " ".join(pts), rng.randint(1, 3))
+
 # ------------------------------------------------------------------ parsing of output lines
 def pnum(s):
     if s.startswith("0x") or s.startswith("-0x") or "nan" in s or "inf" in s: return float.fromhex(s) if "x" in s else float(s)
@@ -163,11 +171,12 @@ def case_info(line):
     if kind == "D": return dict(kind="D", tree=["DISC"], n1=int(g[2][0]), n2=int(g[3][0]), parts=list(map(int, g[4])), reg=Fraction(g[5][0]))
     if kind == "P": return dict(kind="P", tree=["PSET"] + g[1], n1=int(g[2][0]), n2=int(g[3][0]))
     if kind == "M": return dict(kind="M", tree=["MKL", "WSUM", "RBF", "DISC", "LIN"], n1=int(g[3][0]), n2=int(g[4][0]), parts=list(map(int, g[5])), reg=Fraction(0))
+    if kind == "T": return dict(kind="T", tree=["MTASK", "GTASK"] + g[1], n1=int(g[3][0]), n2=int(g[3][0]), nt=int(g[0][2]))
     return dict(kind="?", tree=[], n1=0, n2=0)
 
 CLASSES = {"LIN": "LinearKernel", "POLY": "PolynomialKernel", "MONO": "MonomialKernel", "RBF": "GaussianRbfKernel", "ARD": "ARDKernelUnconstrained", "NORM": "NormalizedKernel",
            "SCALED": "ScaledKernel", "WSUM": "WeightedSumKernel", "PROD": "ProductKernel", "SUBR": "SubrangeKernel", "MODEL": "ModelKernel", "DISC": "DiscreteKernel",
-           "PSET": "PointSetKernel", "MKL": "MklKernel"}
+           "PSET": "PointSetKernel", "MKL": "MklKernel", "MTASK": "MultiTaskKernel", "GTASK": "GaussianTaskKernel"}
 def classes_of(tree): return [t for t in tree if t in CLASSES]
 
 # ------------------------------------------------------------------ spec monitor (on the implementation's output only)
@@ -192,11 +201,50 @@ def jacobi_min_eig(m, n):
                     apk, aqk = a[p][k], a[q][k]; a[p][k] = c * apk - s * aqk; a[q][k] = s * apk + c * aqk
     return min(a[i][i] for i in range(n)) if n else 0.0
 
+def monitor_task(info, d):
+    """T cases: the task-kernel table is symmetric, has unit diagonal and no negative eigenvalue - right after construction (TK) and after
+    setParameterVector(parameterVector()) round trips (TK2, which must also equal TK: check task-kernel-reinit); MultiTaskKernel is the
+    product of input kernel and task kernel, symmetric, batch = single, no negative eigenvalue"""
+    bad = []; n = info["n1"]; nt = info["nt"]
+    def get(k, m):
+        v = d.get(k); return v if v is not None and len(v) == m else None
+    TK, TK2, KI, MT, MB, TS = get("TK", nt * nt), get("TK2", nt * nt), get("KI", n * n), get("MT", n * n), get("MB", n * n), get("TS", n)
+    if TK is None or MT is None or KI is None or TS is None: return [("exception", "TK", "task-kernel table / multi-task kernel values not printed")]
+    def table(check, f, m):
+        if any(math.isnan(float(x)) or math.isinf(float(x)) for x in m): bad.append((check if check == "task-kernel-reinit" else "non-finite", f, "%s is not finite" % f)); return
+        for i in range(nt):
+            if not close(m[i * nt + i], 1): bad.append((check or "normalized-diagonal", f, "%s(%d,%d) = %r, expected 1" % (f, i, i, float(m[i * nt + i])))); return
+            for j in range(nt):
+                if not close(m[i * nt + j], m[j * nt + i]): bad.append((check or "symmetry", f, "%s(%d,%d) = %r but %s(%d,%d) = %r" % (f, i, j, float(m[i * nt + j]), f, j, i, float(m[j * nt + i])))); return
+        e = jacobi_min_eig(m, nt)
+        if e < -1e-9 * nt: bad.append((check or "negative-eigenvalue", f, "task-kernel table %s has eigenvalue %.6g" % (f, e)))
+    table(None, "TK", TK)
+    if TK2 is not None:
+        for i, (x, y) in enumerate(zip(TK2, TK)):
+            if not close(x, y): bad.append(("task-kernel-reinit", "TK2", "after setParameterVector(parameterVector()) table[%d] = %r, before %r" % (i, float(x), float(y)))); break
+        table("task-kernel-reinit", "TK2", TK2)
+    ts = [int(t) for t in TS]
+    for i in range(n):
+        for j in range(n):
+            want = float(KI[i * n + j]) * float(TK[ts[i] * nt + ts[j]])
+            if not close(MT[i * n + j], want): bad.append(("definition", "MT", "MultiTaskKernel(%d,%d) = %r but input kernel * task kernel = %r" % (i, j, float(MT[i * n + j]), want))); break
+            if not close(MT[i * n + j], MT[j * n + i]): bad.append(("symmetry", "MT", "MultiTaskKernel(%d,%d) = %r but (%d,%d) = %r" % (i, j, float(MT[i * n + j]), j, i, float(MT[j * n + i])))); break
+        else: continue
+        break
+    if MB is not None:
+        for i, (x, y) in enumerate(zip(MB, MT)):
+            if not close(x, y): bad.append(("batch!=single", "MB", "MB[%d] = %r but single = %r" % (i, float(x), float(y)))); break
+    if all(abs(float(x)) < 1e100 for x in MT):
+        e = jacobi_min_eig(MT, n); tr = max([1.0] + [abs(float(MT[i * n + i])) for i in range(n)]) * n
+        if e < -1e-9 * tr: bad.append(("negative-eigenvalue", "MT", "MultiTaskKernel Gram matrix has eigenvalue %.6g" % e))
+    return bad
+
 def monitor_line(line, out):
     """returns list of (check, field, message); check names are stable (used in violation keys)"""
     info = case_info(line); d = parse_out(out); bad = []
     n1, n2 = info["n1"], info["n2"]
     if "EXC" in d or "STDEXC" in d or not d: return [("exception", "EXC", "the library threw / produced no output: " + out[:120])]
+    if info["kind"] == "T": return monitor_task(info, d)
     def get(k, n=None):
         v = d.get(k)
         if v is None or (n is not None and len(v) != n): return None
@@ -253,13 +301,16 @@ def monitor_line(line, out):
     return bad
 
 # ------------------------------------------------------------------ model vs implementation
-PAIRS = [("S", "S"), ("B", "B"), ("BS", "B"), ("SD", "SD"), ("D1", "D1"), ("FD", "FD"), ("FB", "FD"), ("G", "G"), ("G1", "G"), ("MX", "S"), ("KM", None), ("WI", "WI"), ("WP", "WP"), ("WP", "WP1")]
+PAIRS = [("S", "S"), ("B", "B"), ("BS", "B"), ("SD", "SD"), ("D1", "D1"), ("FD", "FD"), ("FB", "FD"), ("G", "G"), ("G1", "G"), ("MX", "S"), ("KM", None), ("WI", "WI"), ("WP", "WP"), ("WP", "WP1"),
+         ("S", "SE"), ("B", "BE"),
+         ("MX", "MX"), ("KD", "KD"),
+         ("TK", "TK"), ("KI", "KI"), ("MT", "MT"), ("MB", "MT")]   # C05Task.gt_matrix / k_mtask: GaussianTaskKernel table, MultiTaskKernel    # C05Blocks.gram_mixed / kmpd: the block loops of calculateMixedKernelMatrix / calculateKernelMatrixParameterDerivative     # SE/BE: den / bden of the expression as a C05Expr.kexp value (the function the expression theorems are about)
 MUST = ("S", "B")
 def exact_case(line):
     """every intermediate value of the C++ computation is a small dyadic rational: no sqrt/exp, divisions only by 1, 2, 4"""
     info = case_info(line); tr = info["tree"]
     if info["kind"] == "D": return True
-    if info["kind"] == "M": return False
+    if info["kind"] in ("M", "T"): return False
     if info["kind"] == "V" and "NORM" in tr: return norm_exact(line)
     if any(c in tr for c in ("NORM", "RBF", "ARD")): return False
     for i, tk in enumerate(tr):
@@ -305,10 +356,12 @@ def compare_line(line, mout, iout, stats):
             if exact and isinstance(y, Fraction) and is_dyadic(y) and not (math.isnan(x) or math.isinf(x)):
                 stats["exact"] += 1
                 if fi in ("WI", "WP"): stats[fi + "_exact"] = stats.get(fi + "_exact", 0) + 1
+                if fm in ("SE", "BE", "MX", "KD", "TK", "MT"): stats["x" + fm + "_exact"] = stats.get("x" + fm + "_exact", 0) + 1
                 if Fraction(x) != y: diffs.append("%s[%d]: implementation %r, model %s (exact)" % (fi, i, x, y)); break
             else:
                 stats["tol"] += 1
                 if fi in ("WI", "WP"): stats[fi + "_tol"] = stats.get(fi + "_tol", 0) + 1
+                if fm in ("SE", "BE", "MX", "KD", "TK", "MT"): stats["x" + fm + "_tol"] = stats.get("x" + fm + "_tol", 0) + 1
                 if not close(x, y, 1e-11, 1e-12): diffs.append("%s[%d]: implementation %r, model %r" % (fi, i, float(x), float(y))); break
     return diffs
 
@@ -394,7 +447,10 @@ def main():
                                     "finite differences (five-point stencil, h = 2^-10) inside the harness are built from the kernels' own single evaluations"]
     ck.assumptions = ["inputs of one kernel call have equal dimension; PolynomialKernel offset >= 0, ScaledKernel factor > 0, WeightedSumKernel weights exp(.) > 0, DiscreteKernel table symmetric positive semi-definite (generated as A*A^T)",
                       "NormalizedKernel: base kernel value k(x,x) > 0 on every generated point",
-                      "positive semi-definiteness of Gaussian/ARD Gram matrices is monitored by eigenvalues, not proved (psd_gaussian_partial)"]
+                      "theorems named C05_*real* / C05_psd_gaussian* / C05_psd_ard / C05_psd_exponentiated_inner_product / C05_limit_* / C05_psd_expression* are over Coq's real numbers "
+                      "(A := R, expA := exp) and rest on the standard-library axioms behind R and exp only: ClassicalDedekindReals.sig_forall_dec, ClassicalDedekindReals.sig_not_dec, "
+                      "FunctionalExtensionality.functional_extensionality_dep (listed per theorem in the obligations); all other theorems are axiom-free and hold in every ordered field",
+                      "positive semi-definiteness over R says nothing about rounding: the floating-point Gram matrices of Gaussian/ARD (and composed) kernels are additionally monitored by eigenvalues (tolerance 1e-9 * trace)"]
     ck.proofs()
     model = extract_model(PID, "C05Extract.v", "c05_driver.ml")
     impl, err = cxx_build("c05_kernels", [os.path.join(ROOT, "harness", "c05_kernels.cpp")])
@@ -403,7 +459,8 @@ def main():
     tmpd = os.path.join(BUILD, "tmp", PID); os.makedirs(tmpd, exist_ok=True)
     big = ck.tier == "thorough"; rng = ck.rng; f = 12 if big else 1
     cases = load_cases(ck, [(lambda: gen_vector(rng, False, big), 700 * f), (lambda: gen_vector(rng, True, big), 150 * f), (lambda: gen_norm_exact(rng), 60 * f),
-                            (lambda: gen_discrete(rng), 60 * f), (lambda: gen_pointset(rng), 60 * f), (lambda: gen_mkl(rng), 60 * f)])
+                            (lambda: gen_discrete(rng), 60 * f), (lambda: gen_pointset(rng), 60 * f), (lambda: gen_mkl(rng), 60 * f),
+                            (lambda: gen_task(rng), 60 * f)])
     log("[C05] %d cases generated, proofs+builds took %.1fs" % (len(cases), time.time() - ck.t0))
     io = run_cases(impl, [[c] for c in cases], os.path.join(tmpd, "impl_in.txt"), env={"OMP_NUM_THREADS": "2", "OPENBLAS_NUM_THREADS": "1"})
     mo = run_cases(model, [[c] for c in cases], os.path.join(tmpd, "model_in.txt"))
@@ -461,7 +518,7 @@ def main():
     ck.cov["evaluations"] = len(cases)
     ck.cov["distinct_nontrivial"] = len(nontriv)
     ck.cov["rule"] = ("random kernel expressions (depth <= 3 over Linear, Polynomial, Monomial, GaussianRbf, ARD, Normalized, Scaled, WeightedSum, Product, Subrange, Model(LinearModel); dense and sparse inputs; "
-                      "DiscreteKernel, PointSetKernel, MklKernel cases) on 1..5 x 1..4 points of dimension 1..4 with small integer/dyadic coordinates incl. duplicates, axis vectors, zero vectors, random batch partitions and regularisers; "
+                      "DiscreteKernel, PointSetKernel, MklKernel, GaussianTaskKernel/MultiTaskKernel cases) on 1..5 x 1..4 points of dimension 1..4 with small integer/dyadic coordinates incl. duplicates, axis vectors, zero vectors, random batch partitions and regularisers; "
                       "non-trivial = at least 2 points on both sides and a composed kernel (or a non-vector kernel); distinct = distinct case strings")
     ck.cov["samples"] = cases[:2] + cases[-1:]
     cls_count = {}
@@ -472,8 +529,10 @@ def main():
     ck.notes["numbers_compared_exactly"] = stats["exact"]; ck.notes["numbers_compared_with_tolerance"] = stats["tol"]
     ck.notes["derivative_numbers_compared"] = {k: v for k, v in stats.items() if k.startswith(("WI", "WP"))}
     ck.notes["cases_with_derivative_flags_compared"] = stats.get("flags", 0)
+    # SE/BE: C05Expr.den/bden vs eval single/batch; MX: C05Blocks.gram_mixed vs calculateMixedKernelMatrix; KD: C05Blocks.kmpd vs calculateKernelMatrixParameterDerivative
+    ck.notes["expression_and_block_routine_numbers_compared"] = {k[1:]: v for k, v in stats.items() if k.startswith("x")}
     ck.notes["not_instantiable"] = "ARDKernelUnconstrained<CompressedRealVector> and NormalizedKernel<CompressedRealVector> (typedefs CompressedARDKernel, CompressedNormalizedKernel) do not compile in this tree; sparse cases use Linear, Polynomial, Monomial, GaussianRbf, Scaled, WeightedSum, Product"
-    ck.finish(explanation="Coq theorems over C05Model (axiom-free, any ordered field) + exact/1e-11 correspondence of the extracted model with the compiled kernels + independent monitor on every anchored kernel class")
+    ck.finish(explanation="Coq theorems over C05Model (axiom-free for any ordered field; positive semi-definiteness of Gaussian/ARD and kernels composed from them over Coq's real numbers with the standard real-number axioms) + exact/1e-11 correspondence of the extracted model with the compiled kernels + independent monitor on every anchored kernel class")
 
 if __name__ == "__main__":
     main()
